@@ -428,27 +428,63 @@ const char *mutate(std::string &t, const Op &cfg, size_t base) {
 }
 bool has_high(const std::string &t) { for (unsigned char c : t) if (c >= 0x80) return true; return false; }
 
-enum { CFG = 0, DATA = 1 };
+enum { CFG = 0, DATA = 1, BIGDATA = 2 };
+
+// `big <sizemode> <delta> <pattern> <seed>`: a large generated value in place of the `data` bytes, for index / length types
+// narrower than size_t inside a codec (16-bit positions, int lengths ...).  Sizes: one of the sub's boundary sizes -3..+3,
+// or anywhere in [lo, hi].  Patterns: uniform bytes, bytes >= 0x80, all 0xff, printable ASCII.
+struct BigSpec { const size_t *bases; int nbases; size_t lo, hi; };
+const char *kBigDataPattern[] = {"large_uniform_bytes", "large_bytes_ge_0x80", "large_all_0xff", "large_printable_ascii"};
+std::vector<uint8_t> big_bytes(const Op &op, const BigSpec &sp, int &pattern) {
+  int mode = (int)op.in(0, 0, sp.nbases + 1);
+  int64_t delta = op.in(1, 0, 6) - 3;
+  pattern = (int)op.in(2, 0, 3);
+  uint32_t seed = (uint32_t)op.in(3, 0, 1 << 20);
+  int64_t n = mode < sp.nbases ? (int64_t)sp.bases[mode] + delta
+                               : (int64_t)(sp.lo + (size_t)(((uint64_t)seed * 2654435761u + (uint64_t)mode * 40503u) % (sp.hi - sp.lo + 1)));
+  if (n < 0) n = 0;
+  if ((size_t)n > sp.hi) n = (int64_t)sp.hi;
+  std::vector<uint8_t> v((size_t)n);
+  uint32_t g = seed * 2654435761u + 12345u;
+  auto next = [&]() -> uint32_t { g = g * 1664525u + 1013904223u; return g >> 8; };
+  switch (pattern) {
+    case 0: for (auto &b : v) b = (uint8_t)next(); break;
+    case 1: for (auto &b : v) b = (uint8_t)(0x80 | (next() & 0x7f)); break;
+    case 2: std::fill(v.begin(), v.end(), 0xff); break;
+    default: for (auto &b : v) b = (uint8_t)(0x20 + next() % 95); break;
+  }
+  return v;
+}
 
 // split a cfg+data scenario
-struct CfgData { Op cfg; std::vector<uint8_t> data; };
-CfgData split(const Scenario &s) {
+struct CfgData { Op cfg; std::vector<uint8_t> data; bool big = false; int pattern = -1; };
+CfgData split(const Scenario &s, const BigSpec *sp = nullptr) {
   CfgData r; bool have = false;
   for (auto &op : s.ops) {
     if (op.code == CFG) { if (!have) { r.cfg = op; have = true; } }
     else if (op.code == DATA) { auto b = bytes_of(op); r.data.insert(r.data.end(), b.begin(), b.end()); }
+    else if (op.code == BIGDATA && sp && !r.big) { r.big = true; auto b = big_bytes(op, *sp, r.pattern); r.data.insert(r.data.end(), b.begin(), b.end()); }
   }
-  if (r.data.size() > 70000) r.data.resize(70000);
+  size_t cap = r.big ? sp->hi : 70000;
+  if (r.data.size() > cap) r.data.resize(cap);
   return r;
 }
+// libFuzzer inputs: <ncfg cfg bytes> <data bytes...>.  An input of exactly ncfg+6 bytes  <cfg> mode delta pattern CK 0xB1 0x6D
+// whose CK byte is the xor of all bytes before it ^ 0x5A carries a `big` op (seed = CK) instead of data bytes.  Such inputs
+// are in the seed corpus (executed when a campaign starts); a mutant of them almost never keeps the check byte valid, so
+// the slow large cases (10-100 ms) do not take over the campaign (without the check byte they were 20-30 % of all execs).
 Scenario cfg_data_decode(const uint8_t *d, size_t n, size_t ncfg) {
   Scenario s; Op c; c.code = CFG;
   size_t i = 0;
   for (; i < ncfg && i < n; ++i) c.a.push_back(d[i]);
   s.ops.push_back(c);
+  bool big = n == ncfg + 6 && d[n - 2] == 0xB1 && d[n - 1] == 0x6D;
+  if (big) { uint8_t ck = 0x5A; for (size_t k = 0; k + 3 < n; ++k) ck ^= d[k]; big = ck == d[n - 3]; }
+  size_t end = big ? n - 6 : n;
   Op dt; dt.code = DATA;
-  for (; i < n; ++i) dt.a.push_back(d[i]);
+  for (; i < end; ++i) dt.a.push_back(d[i]);
   s.ops.push_back(dt);
+  if (big) { Op b; b.code = BIGDATA; b.a = {d[n - 6], d[n - 5], d[n - 4], d[n - 3]}; s.ops.push_back(b); }
   return s;
 }
 
@@ -464,6 +500,7 @@ rc::Gen<Op> opHeadBytes(int code, std::vector<rc::Gen<int64_t>> head, rc::Gen<st
   return rc::gen::apply([](Op o, std::vector<int64_t> t) { for (auto x : t) o.a.push_back(x); return o; }, mkop(code, std::move(head)), std::move(tail));
 }
 rc::Gen<std::vector<int64_t>> fixedBytes(size_t n, rc::Gen<int64_t> b) { return rc::gen::container<std::vector<int64_t>>(n, std::move(b)); }
+rc::Gen<Op> bigDataOp(const BigSpec &sp) { return mkop(BIGDATA, {range(0, sp.nbases + 1), range(0, 6), range(0, 3), range(0, 1 << 20)}); }
 std::vector<int64_t> chars(const char *s) { std::vector<int64_t> v; for (; *s; ++s) v.push_back((unsigned char)*s); return v; }
 rc::Gen<int64_t> anyI64() {
   return rc::gen::weightedOneOf<int64_t>({{3, range(0, 300)}, {2, range(-70000, 70000)}, {2, range(-(int64_t(1) << 40), int64_t(1) << 40)},
@@ -550,9 +587,14 @@ std::string check_decode(const std::string &text, size_t extra, size_t prefix, b
   return "";
 }
 
+// large values: encoded length crosses 2^16 at 49152 bytes, 2^17 at 98304, 2^18 at 196608
+const size_t kBigBases[] = {49150, 49152, 65535, 65536, 98304, 131072, 196608};
+const BigSpec kBig = {kBigBases, 7, 40000, 204800};
+
 std::string run(const Scenario &s, CaseInfo &info) {
   selftest();
-  CfgData cd = split(s);
+  CfgData cd = split(s, &kBig);
+  if (cd.big) { info.cls("large_value_40KiB_to_200KiB"); info.cls(kBigDataPattern[cd.pattern]); info.cls_if(B::EncodeLength(cd.data.size()) > 65535, "large_text_over_65535_chars"); }
   int mode = (int)cd.cfg.in(0, 0, 2);
   size_t extra = (size_t)cd.cfg.in(1, 1, 9), prefix = (size_t)cd.cfg.in(2, 0, 5);
   if (mode == 1) {   // arbitrary bytes as decoder input
@@ -598,9 +640,9 @@ std::string run(const Scenario &s, CaseInfo &info) {
 
 SubDef def = [] {
   SubDef d; d.name = "base64";
-  d.op_names = {"cfg", "data"};
-  d.op_arity = {6, 8};
-  d.nt_rule = "round trip of a value whose encoding is padded (n mod 3 != 0, all capacities incl. exact and one short), or a decoder input that is a really mutated encoding, contains a byte >= 0x80, or is arbitrary text of a length that passes the multiple-of-4 gate";
+  d.op_names = {"cfg", "data", "big"};
+  d.op_arity = {6, 8, 4};
+  d.nt_rule = "(about 0.2 % of the rapidcheck cases use a 40-200 KiB value, classes large_*) round trip of a value whose encoding is padded (n mod 3 != 0, all capacities incl. exact and one short), or a decoder input that is a really mutated encoding, contains a byte >= 0x80, or is arbitrary text of a length that passes the multiple-of-4 gate";
   d.run = run;
   d.decode = [](const uint8_t *p, size_t n) { return cfg_data_decode(p, n, 6); };
 #ifndef VERIF_ENGINE_FUZZ
@@ -609,9 +651,11 @@ SubDef def = [] {
     auto texty = byteGen(chars("ABCDEFGHIJKLMNOPQRSTUVWXYZabcdefghijklmnopqrstuvwxyz0123456789+/+/==="), 30, 1, 1);
     auto cfg = [](int mode) { return mkop(CFG, {rc::gen::just<int64_t>(mode), range(1, 9), range(0, 5), range(0, 5), range(0, 255), byteGen({'=', 'A', '/', 0, 0x80, 0xff, '-', '_', ' ', '\n'}, 3, 2, 2)}); };
     return rc::gen::weightedOneOf<Scenario>({
-      {4, scenarioOf(fixedOps({cfg(0)}), fixedOps({opOfBytes(DATA, any)}))},
-      {3, scenarioOf(fixedOps({cfg(2)}), fixedOps({opOfBytes(DATA, any)}))},
-      {3, scenarioOf(fixedOps({cfg(1)}), fixedOps({opOfBytes(DATA, texty)}))}});
+      {600, scenarioOf(fixedOps({cfg(0)}), fixedOps({opOfBytes(DATA, any)}))},
+      {450, scenarioOf(fixedOps({cfg(2)}), fixedOps({opOfBytes(DATA, any)}))},
+      {450, scenarioOf(fixedOps({cfg(1)}), fixedOps({opOfBytes(DATA, texty)}))},
+      {2, scenarioOf(fixedOps({cfg(0)}), fixedOps({bigDataOp(kBig)}))},        // large value: round trip
+      {1, scenarioOf(fixedOps({cfg(2)}), fixedOps({bigDataOp(kBig)}))}});      // large value: mutated encoding
   };
 #endif
   return d;
@@ -624,8 +668,12 @@ VERIF_REGISTER(&def);
 // =================================================================================================
 namespace hexsub {
 namespace S = tbox::util::string;
-const char *kDelims[] = {"", " ", ":", ", ", " \t", "-", "\x80\xfe", ": ", "\n", "xyz"};
-const int kNDelims = 10;
+const char *kDelims[] = {"", " ", ":", ", ", " \t", "-", "\x80\xfe", ": ", "\n", "xyz", " | ", "\r\n\t"};
+const int kNDelims = 12;
+// large values (the API maximum is 65535 bytes): the text passes 65535 characters at 32768 bytes without delimiter,
+// 21846 with a 1-character, 16385 with a 2-character and 13108 with a 3-character delimiter
+const size_t kBigBases[] = {13107, 13108, 16384, 16385, 21845, 21846, 32767, 32768, 43691, 65535};
+const BigSpec kBig = {kBigBases, 10, 12000, 65535};
 
 // reference parsers; return false = not well-formed
 bool ref_nodelim(const std::string &t, std::vector<uint8_t> &out) {
@@ -663,7 +711,9 @@ std::string check_decode(const std::string &text, const std::string &delim, size
   if (delim.empty()) {
     size_t pairs = text.size() / 2;
     size_t caps[5] = {pairs, pairs ? pairs - 1 : 0, 0, pairs + extra, 1};
-    for (size_t cap : caps) {
+    int ncaps = text.size() > 20000 ? 2 : 5;          // large texts: exact and one short only (cost)
+    for (int ci = 0; ci < ncaps; ++ci) {
+      size_t cap = caps[ci];
       if (cap > 65535) continue;
       size_t m = std::min(cap, pairs);
       bool valid = true; std::vector<uint8_t> want;
@@ -700,7 +750,8 @@ std::string check_decode(const std::string &text, const std::string &delim, size
 
 std::string run(const Scenario &s, CaseInfo &info) {
   selftest();
-  CfgData cd = split(s);
+  CfgData cd = split(s, &kBig);
+  if (cd.big) { info.cls("large_value_12000_to_65535_bytes"); info.cls(kBigDataPattern[cd.pattern]); }
   int mode = (int)cd.cfg.in(0, 0, 2);
   bool upper = cd.cfg.in(1, 0, 1) != 0;
   int di = (int)cd.cfg.in(2, 0, kNDelims - 1);
@@ -722,7 +773,13 @@ std::string run(const Scenario &s, CaseInfo &info) {
   std::string want = ref::hex_encode(raw, upper, delim);
   std::string got = S::RawDataToHexStr(in.u8(), (uint16_t)n, upper, delim);
   if (got.size() != want.size()) return fmt("RawDataToHexStr of %zu bytes with a %zu-char delimiter produced %zu chars, expected %zu", n, delim.size(), got.size(), want.size());
-  if (got != want) return fmt("RawDataToHexStr(%s, upper=%d) gave '%s', expected '%s'", hexs(raw).c_str(), (int)upper, got.substr(0, 40).c_str(), want.substr(0, 40).c_str());
+  if (got != want) {
+    size_t at = 0; while (got[at] == want[at]) ++at;
+    return fmt("RawDataToHexStr(%s [%zu bytes], upper=%d, %zu-char delimiter): the %zu-char text differs from the reference encoding at offset %zu: '%s' instead of '%s'", hexs(raw).c_str(), n, (int)upper, delim.size(),
+               got.size(), at, hexs(got.substr(at, 12)).c_str(), hexs(want.substr(at, 12)).c_str());
+  }
+  info.cls(delim.size() == 0 ? "delimiter_len0" : delim.size() == 1 ? "delimiter_len1" : delim.size() == 2 ? "delimiter_len2" : "delimiter_len3");
+  info.cls_if(got.size() > 65535, "large_text_over_65535_chars");
   if (di == 1 && !upper) {
     std::string g2 = S::RawDataToHexStr(in.u8(), (uint16_t)n);
     if (g2 != want) return fmt("RawDataToHexStr(ptr,len) with default arguments gave '%s', expected '%s'", g2.substr(0, 40).c_str(), want.substr(0, 40).c_str());
@@ -750,9 +807,9 @@ std::string run(const Scenario &s, CaseInfo &info) {
 
 SubDef def = [] {
   SubDef d; d.name = "hex";
-  d.op_names = {"cfg", "data"};
-  d.op_arity = {8, 8};
-  d.nt_rule = "round trip of a non-empty value (both decoder overloads, fixed buffer at exact/one-short/zero/larger capacity), or decoder input that is a really mutated encoding, has odd length or contains a byte >= 0x80";
+  d.op_names = {"cfg", "data", "big"};
+  d.op_arity = {8, 8, 4};
+  d.nt_rule = "(about 0.2 % of the rapidcheck cases use a 12000-65535 byte value around the sizes where the text passes 65535 characters, classes large_*) round trip of a non-empty value (both decoder overloads, fixed buffer at exact/one-short/zero/larger capacity), or decoder input that is a really mutated encoding, has odd length or contains a byte >= 0x80";
   d.run = run;
   d.decode = [](const uint8_t *p, size_t n) { return cfg_data_decode(p, n, 8); };
 #ifndef VERIF_ENGINE_FUZZ
@@ -762,9 +819,11 @@ SubDef def = [] {
     auto cfg = [](int mode) { return mkop(CFG, {rc::gen::just<int64_t>(mode), range(0, 1), rc::gen::weightedOneOf<int64_t>({{3, rc::gen::just<int64_t>(0)}, {4, range(1, kNDelims - 1)}}), range(1, 9), range(0, 4),
                                                 range(0, 5), range(0, 255), byteGen({'g', 'G', ' ', 0, 0x80, 0xff, ':', '/', '@', '`'}, 3, 2, 2)}); };
     return rc::gen::weightedOneOf<Scenario>({
-      {4, scenarioOf(fixedOps({cfg(0)}), fixedOps({opOfBytes(DATA, any)}))},
-      {3, scenarioOf(fixedOps({cfg(2)}), fixedOps({opOfBytes(DATA, any)}))},
-      {3, scenarioOf(fixedOps({cfg(1)}), fixedOps({opOfBytes(DATA, texty)}))}});
+      {600, scenarioOf(fixedOps({cfg(0)}), fixedOps({opOfBytes(DATA, any)}))},
+      {450, scenarioOf(fixedOps({cfg(2)}), fixedOps({opOfBytes(DATA, any)}))},
+      {450, scenarioOf(fixedOps({cfg(1)}), fixedOps({opOfBytes(DATA, texty)}))},
+      {2, scenarioOf(fixedOps({cfg(0)}), fixedOps({bigDataOp(kBig)}))},        // large value: round trip
+      {1, scenarioOf(fixedOps({cfg(2)}), fixedOps({bigDataOp(kBig)}))}});      // large value: mutated encoding
   };
 #endif
   return d;
@@ -778,7 +837,7 @@ VERIF_REGISTER(&def);
 namespace sint {
 using tbox::util::DumpScalableInteger;
 using tbox::util::ParseScalableInteger;
-enum { VAL = 0, RAW = 1, PARSE = 2 };
+enum { VAL = 0, RAW = 1, PARSE = 2, BULK = 3 };
 
 std::string check_value(uint64_t v, size_t extra, CaseInfo &info) {
   std::vector<uint8_t> want = ref::sint_dump(v);
@@ -824,6 +883,7 @@ uint64_t edge_value(int64_t kind, int64_t delta, bool &is_edge) {
 std::string run(const Scenario &s, CaseInfo &info) {
   selftest();
   size_t nops = 0;
+  bool bulk_done = false;
   for (auto &op : s.ops) {
     if (++nops > 60) break;
     std::string e;
@@ -866,6 +926,38 @@ std::string run(const Scenario &s, CaseInfo &info) {
           }
         }
         break; }
+      case BULK: {
+        // an array of 1000..30000 integers dumped back to back into ONE exact-size block (up to ~200 KiB: offsets and
+        // remaining sizes beyond 16 bits), then parsed back in sequence
+        if (bulk_done) break;
+        bulk_done = true;
+        size_t count = (size_t)op.in(0, 1000, 30000);
+        uint32_t g = (uint32_t)op.in(1, 0, 1 << 20) * 2654435761u + 99u;
+        auto next = [&]() -> uint64_t { g = g * 1664525u + 1013904223u; return g >> 8; };
+        std::vector<uint64_t> vals(count); std::vector<uint8_t> all; std::vector<size_t> lens(count);
+        for (size_t i = 0; i < count; ++i) {
+          unsigned width = 1 + (unsigned)(next() % 64);
+          vals[i] = ((next() << 40) ^ (next() << 16) ^ next()) >> (64 - width);
+          auto enc = ref::sint_dump(vals[i]); lens[i] = enc.size(); all.insert(all.end(), enc.begin(), enc.end());
+        }
+        Blk buf(all.size());
+        size_t off = 0;
+        for (size_t i = 0; i < count && e.empty(); ++i) {
+          size_t r = DumpScalableInteger(vals[i], buf.u8() + off, buf.n - off);
+          if (r != lens[i]) e = fmt("DumpScalableInteger(%llu) at offset %zu of a %zu-byte block returned %zu, the format needs %zu", (unsigned long long)vals[i], off, buf.n, r, lens[i]);
+          off += lens[i];
+        }
+        if (e.empty() && memcmp(buf.u8(), all.data(), all.size())) e = fmt("array of %zu dumped integers (%zu bytes) differs from the reference encoding", count, all.size());
+        off = 0;
+        for (size_t i = 0; i < count && e.empty(); ++i) {
+          uint64_t out = 0;
+          size_t r = ParseScalableInteger(buf.u8() + off, buf.n - off, out);
+          if (r != lens[i] || out != vals[i]) e = fmt("ParseScalableInteger at offset %zu of a %zu-byte block returned %zu/%llu, expected %zu/%llu", off, buf.n, r, (unsigned long long)out, lens[i], (unsigned long long)vals[i]);
+          off += lens[i];
+        }
+        info.cls("large_array_of_integers"); info.cls_if(all.size() > 65535, "large_array_over_65535_bytes");
+        info.nontrivial = true;
+        break; }
       default: break;
     }
     if (!e.empty()) return e;
@@ -877,7 +969,10 @@ Scenario decode(const uint8_t *p, size_t n) {
   Scenario s; size_t i = 0;
   auto u8 = [&]() -> int64_t { return i < n ? p[i++] : 0; };
   while (i < n && s.ops.size() < 64) {
-    Op op; op.code = (int)(u8() % 3);
+    Op op; int64_t c = u8();
+    // the 4-byte input  0xFB a b (a^b^0x5A)  is the `bulk` case of the seed corpus (check byte: mutants do not stay bulk cases)
+    if (c == 0xFB && n == 4 && i == 1 && (p[1] ^ p[2] ^ 0x5A) == p[3]) { op.code = BULK; op.a = {1000 + ((p[1] << 8 | p[2]) % 29001), p[3]}; s.ops.push_back(op); break; }
+    op.code = (int)(c % 3);
     if (op.code == VAL) { op.a = {u8() % 13, (int64_t)(u8() % 7) - 3, u8()}; }
     else if (op.code == RAW) { uint64_t v = 0; for (int k = 0; k < 8; ++k) v = v << 8 | (uint64_t)u8(); op.a = {(int64_t)v, u8(), u8()}; }
     else { size_t len = (size_t)u8() % 17; for (size_t k = 0; k < len && i < n; ++k) op.a.push_back(u8()); }
@@ -888,9 +983,9 @@ Scenario decode(const uint8_t *p, size_t n) {
 
 SubDef def = [] {
   SubDef d; d.name = "scalable_int";
-  d.op_names = {"val", "raw", "parse"};
-  d.op_arity = {3, 3, 12};
-  d.nt_rule = "case contains a value within +-3 of an encoding-length boundary (all 10 lengths, 2^63, 2^64-1) checked at capacities exact/one short/zero/larger, or a parse of bytes with no terminator (truncated, or >= 10 continuation bytes)";
+  d.op_names = {"val", "raw", "parse", "bulk"};
+  d.op_arity = {3, 3, 12, 2};
+  d.nt_rule = "(about 0.2 % of the rapidcheck cases dump and parse an array of 1000-30000 integers in one block of up to ~200 KiB) case contains a value within +-3 of an encoding-length boundary (all 10 lengths, 2^63, 2^64-1) checked at capacities exact/one short/zero/larger, or a parse of bytes with no terminator (truncated, or >= 10 continuation bytes)";
   d.run = run;
   d.decode = decode;
 #ifndef VERIF_ENGINE_FUZZ
@@ -903,10 +998,11 @@ SubDef def = [] {
                             fixedBytes((size_t)run, cont), rc::gen::container<std::vector<int64_t>>(byteGen({0, 0x7f}, 2, 2, 1)));
     });
     auto opg = rc::gen::weightedOneOf<Op>({
-      {5, mkop(VAL, {range(0, 12), range(-3, 3), range(1, 6)})},
-      {3, mkop(RAW, {rc::gen::arbitrary<int64_t>(), range(1, 64), range(1, 6)})},
-      {4, parseOp},
-      {1, opOfBytes(PARSE, range(0, 255))}});
+      {6000, mkop(VAL, {range(0, 12), range(-3, 3), range(1, 6)})},
+      {3600, mkop(RAW, {rc::gen::arbitrary<int64_t>(), range(1, 64), range(1, 6)})},
+      {4800, parseOp},
+      {1200, opOfBytes(PARSE, range(0, 255))},
+      {1, mkop(BULK, {range(1000, 30000), range(0, 1 << 20)})}});
     (void)term;
     return scenarioOf(rc::gen::just(std::vector<Op>()), opsOf(opg));
   };
@@ -1245,9 +1341,14 @@ std::string check_decode(const std::string &text, bool from_encoder, CaseInfo &i
   return "";
 }
 
+// large strings: all-escaped text passes 65535 characters at 21846 bytes, 2^17 at 43691, 2^18 at 87382
+const size_t kBigBases[] = {21845, 21846, 32768, 43691, 65535, 65536, 87382, 131072};
+const BigSpec kBig = {kBigBases, 8, 20000, 204800};
+
 std::string run(const Scenario &s, CaseInfo &info) {
   selftest();
-  CfgData cd = split(s);
+  CfgData cd = split(s, &kBig);
+  if (cd.big) { info.cls("large_value_20KiB_to_200KiB"); info.cls(kBigDataPattern[cd.pattern]); }
   int mode = (int)cd.cfg.in(0, 0, 3);
   bool path_mode = cd.cfg.in(1, 0, 1) == 1;
   std::string data(cd.data.begin(), cd.data.end());
@@ -1302,9 +1403,9 @@ std::string run(const Scenario &s, CaseInfo &info) {
 
 SubDef def = [] {
   SubDef d; d.name = "url";
-  d.op_names = {"cfg", "data"};
-  d.op_arity = {6, 8};
-  d.nt_rule = "round trip of a string that needs at least one escape, or decoder input that is a really mutated encoding or arbitrary text containing '%' or a byte >= 0x80";
+  d.op_names = {"cfg", "data", "big"};
+  d.op_arity = {6, 8, 4};
+  d.nt_rule = "(about 0.2 % of the rapidcheck cases use a 20-200 KiB string, classes large_*) round trip of a string that needs at least one escape, or decoder input that is a really mutated encoding or arbitrary text containing '%' or a byte >= 0x80";
   d.run = run;
   d.decode = [](const uint8_t *p, size_t n) { return cfg_data_decode(p, n, 6); };
 #ifndef VERIF_ENGINE_FUZZ
@@ -1313,10 +1414,12 @@ SubDef def = [] {
     auto texty = byteGen(chars("%%%%%%0123456789abcdefABCDEFgz/:@?;=&#.+ "), 30, 1, 1);
     auto cfg = [](int mode) { return mkop(CFG, {rc::gen::just<int64_t>(mode), range(0, 1), range(0, 1), range(0, 5), range(0, 255), byteGen({'%', 'g', 0, 0x80, 0xff, '2'}, 3, 2, 2)}); };
     return rc::gen::weightedOneOf<Scenario>({
-      {4, scenarioOf(fixedOps({cfg(0)}), fixedOps({opOfBytes(DATA, any)}))},
-      {3, scenarioOf(fixedOps({cfg(2)}), fixedOps({opOfBytes(DATA, any)}))},
-      {3, scenarioOf(fixedOps({cfg(1)}), fixedOps({opOfBytes(DATA, texty)}))},
-      {1, scenarioOf(fixedOps({cfg(3)}), fixedOps({opOfBytes(DATA, texty)}))}});
+      {600, scenarioOf(fixedOps({cfg(0)}), fixedOps({opOfBytes(DATA, any)}))},
+      {450, scenarioOf(fixedOps({cfg(2)}), fixedOps({opOfBytes(DATA, any)}))},
+      {450, scenarioOf(fixedOps({cfg(1)}), fixedOps({opOfBytes(DATA, texty)}))},
+      {150, scenarioOf(fixedOps({cfg(3)}), fixedOps({opOfBytes(DATA, texty)}))},
+      {2, scenarioOf(fixedOps({cfg(0)}), fixedOps({bigDataOp(kBig)}))},        // large string: round trip
+      {1, scenarioOf(fixedOps({cfg(2)}), fixedOps({bigDataOp(kBig)}))}});      // large string: mutated encoding
   };
 #endif
   return d;
